@@ -21,7 +21,7 @@ RULE = ('One case = a random sequence of 30-60 clock operations (start, stop, sp
         'an assignment while running and a rejected assignment.')
 ASSUMPTIONS = ['real-time values, speeds and assigned values are dyadic rationals, so the clock\'s float arithmetic is exact in mode (i)',
                'mode (ii): the value is only determined up to the real time spent inside an operation']
-REQUIRED_COUNTERS = ['chained_interpreter_steps', 'followed_clock_replaced', 'readings_exact', 'readings_bounded', 'rejected_assignments', 'accepted_assignments_running',
+REQUIRED_COUNTERS = ['readings_exact_non_float', 'chained_interpreter_steps', 'followed_clock_replaced', 'readings_exact', 'readings_bounded', 'rejected_assignments', 'accepted_assignments_running',
                      'speed_changes_running', 'stopped_stillness_checks', 'synchronized_checks']
 
 
@@ -41,8 +41,48 @@ class Source:
         return self.now
 
 
+def exact_big_case(acc, rnd):
+    """A manually driven (never started) clock: accepted assignments take effect *exactly*, whatever the numeric type."""
+    c = SimulatedClock()
+    value = F(0)
+    ops = []
+    for k in range(rnd.randint(8, 20)):
+        op = rnd.choice(('set', 'set', 'inc', 'speed', 'stop', 'low'))
+        if op == 'set':
+            v = value + rnd.choice((F(1, 10), F(1, 3), 1, 2 ** 53 + 1, 10 ** 20, F(7, 1000)))
+            x = int(v) if v.denominator == 1 else v
+            c.time = x
+            value = F(v)
+        elif op == 'inc':
+            d = rnd.choice((1, F(1, 10)))
+            c.time += d
+            value += F(d)
+        elif op == 'speed':
+            c.speed = rnd.choice((0, 1, 2, 3))
+        elif op == 'stop':
+            c.stop()
+        else:
+            try:
+                c.time = (value - F(1, 10 ** 6))
+                acc.violation('C14:backwards-assignment-accepted', 'assignment of a value 1e-6 below the current one (%r) was accepted'
+                              % (value,), dict(ops=ops))
+                return
+            except ValueError:
+                acc.count('rejected_assignments')
+        ops.append(op)
+        got = c.time
+        acc.count('readings_exact_non_float')
+        if F(got) != value:
+            acc.violation('C14:reading-differs', 'stopped clock, after %r: shows %r, the accepted assignments add up to %r' % (op, got, value),
+                          dict(ops=ops))
+            return
+    acc.klass('exact_big', tuple(ops))
+
+
 def run_case(acc, rnd, tier, case):
     r = rnd.random()
+    if r < 0.08:
+        return exact_big_case(acc, rnd)
     if r < 0.6:
         exact_case(acc, rnd)
     elif r < 0.85:
